@@ -136,6 +136,7 @@ func (tx *Transaction) Commit(ctx context.Context, scope *ReferenceScope, expr p
 	tx.operationMutex.Lock()
 	defer tx.operationMutex.Unlock()
 
+	verifPoint("tx.commit.begin", "")
 	createdFiles, updatedFiles := tx.UncommittedViews.UncommittedFiles()
 
 	createFileInfo := make([]*FileInfo, 0, len(createdFiles))
@@ -153,6 +154,7 @@ func (tx *Transaction) Commit(ctx context.Context, scope *ReferenceScope, expr p
 				return NewSystemError(err.Error())
 			}
 
+			verifPoint("tx.commit.encode", fileInfo.Path)
 			if _, err := EncodeView(ctx, fp, view, fileInfo.ExportOptions(tx), tx.Palette); err != nil {
 				return NewCommitError(expr, err.Error())
 			}
@@ -163,6 +165,7 @@ func (tx *Transaction) Commit(ctx context.Context, scope *ReferenceScope, expr p
 				}
 			}
 
+			verifPoint("tx.commit.encoded", fileInfo.Path)
 			createFileInfo = append(createFileInfo, view.FileInfo)
 		}
 	}
@@ -179,6 +182,7 @@ func (tx *Transaction) Commit(ctx context.Context, scope *ReferenceScope, expr p
 				return NewSystemError(err.Error())
 			}
 
+			verifPoint("tx.commit.encode", fileInfo.Path)
 			if _, err := EncodeView(ctx, fp, view, fileInfo.ExportOptions(tx), tx.Palette); err != nil {
 				return NewCommitError(expr, err.Error())
 			}
@@ -189,6 +193,7 @@ func (tx *Transaction) Commit(ctx context.Context, scope *ReferenceScope, expr p
 				}
 			}
 
+			verifPoint("tx.commit.encoded", fileInfo.Path)
 			updateFileInfo = append(updateFileInfo, view.FileInfo)
 		}
 	}
@@ -208,15 +213,18 @@ func (tx *Transaction) Commit(ctx context.Context, scope *ReferenceScope, expr p
 		tx.LogNotice(fmt.Sprintf("Commit: file %q is updated.", f.Path), tx.Flags.Quiet)
 	}
 
+	verifPoint("tx.commit.swapped_all", "")
 	msglist := scope.StoreTemporaryTable(tx.Session, tx.UncommittedViews.UncommittedTempViews())
 	if 0 < len(msglist) {
 		tx.LogNotice(strings.Join(msglist, "\n"), tx.quietForTemporaryViews(expr))
 	}
 	tx.UncommittedViews.Clean()
 	tx.UnlockStdin()
+	verifPoint("tx.commit.release", "")
 	if err := tx.ReleaseResources(); err != nil {
 		return NewCommitError(expr, err.Error())
 	}
+	verifPoint("tx.commit.end", "")
 	return nil
 }
 
@@ -246,9 +254,11 @@ func (tx *Transaction) Rollback(scope *ReferenceScope, expr parser.Expression) e
 	}
 	tx.UncommittedViews.Clean()
 	tx.UnlockStdin()
+	verifPoint("tx.rollback.release", "")
 	if err := tx.ReleaseResources(); err != nil {
 		return NewRollbackError(expr, err.Error())
 	}
+	verifPoint("tx.rollback.end", "")
 	return nil
 }
 
